@@ -204,7 +204,10 @@ def check_law(ctx, case, max_runs):
                     continue
             # dictator branch
             if k >= len(evs) or evs[k]["prim"] != "random.choices":
-                ctx.count("law_structure_unrecognised")
+                if rule == "RandomDictator" and not any(len(rr[0]) > 1 for rr, w_, _ in ballots):
+                    ctx.guard("extract", extract_single_draw_law, ctx, c2, cfg, prof, cands, ballots)
+                else:
+                    ctx.count("law_structure_unrecognised")
                 return
             ev = evs[k]
             k += 1
@@ -235,6 +238,77 @@ def check_law(ctx, case, max_runs):
                          {"elected": w, "first": sorted(first)})
                 return
             elected.append(w)
+
+
+def extract_single_draw_law(ctx, case, cfg, prof, cands, ballots):
+    """Fallback when the ballot draw is not made through random.choices: if every round consumes exactly one
+    random.random()/random.uniform() value, the law of each round is the Lebesgue measure of the set of values mapping to
+    each winner (a step function, located by a grid plus bisection), conditionally on the winners so far; it is compared
+    with the closed form.  Any other structure is left to the frequency tests (inconclusive here)."""
+    m = cfg["m"]
+
+    def winners(us):
+        r = rng.Rng("tap", seed=1, floats=us)
+        with r:
+            o = rules.run(cfg, prof)[0]
+        floats = [e for e in r.events if e.get("forced")]
+        others = [e for e in r.events if not e.get("forced") and e["prim"] not in ("random.sample",)]
+        if not o.ok or others or len(floats) != m:
+            return None
+        return [next(iter(g)) for g in o.value.get_elected()]
+
+    if winners([0.5] * m) is None:
+        ctx.count("law_structure_unrecognised")
+        return
+    ctx.count("single_draw_extractions")
+
+    def rec(prefix_us, elected):
+        k = len(prefix_us)
+        if k == m:
+            return True
+        c2, b2 = current(cands, ballots, elected)
+        if not b2:
+            return True
+        exp = rd_law(c2, b2)
+
+        def at(u):
+            w = winners(prefix_us + [u] + [0.5] * (m - k - 1))
+            return None if w is None or w[:k] != elected else w[k]
+
+        grid = [(i + 0.5) / 48 for i in range(48)]
+        vals = [at(u) for u in grid]
+        measure = {}
+        lo = 0.0
+        for i in range(len(grid)):
+            hi = 1.0
+            if i + 1 < len(grid):
+                if vals[i + 1] == vals[i]:
+                    continue
+                a, b_ = grid[i], grid[i + 1]
+                for _ in range(36):
+                    mid = (a + b_) / 2
+                    if at(mid) == vals[i]:
+                        a = mid
+                    else:
+                        b_ = mid
+                hi = (a + b_) / 2
+            if vals[i] is not None:
+                measure[vals[i]] = measure.get(vals[i], 0.0) + hi - lo
+            lo = hi
+        for c in c2:
+            if abs(measure.get(c, 0.0) - float(exp[c])) > 1e-6:
+                ctx.fail(f"{cfg['rule']}: the law of seat {k + 1} given the winners so far (extracted from the single uniform draw) "
+                         "differs from the share of the current first-place weight", case,
+                         {"elected_so_far": elected, "candidate": c, "measured": measure.get(c, 0.0), "closed_form": float(exp[c])})
+                return False
+        for c in c2:
+            us = [grid[i] for i in range(len(grid)) if vals[i] == c]
+            if us and float(exp[c]) > 0:
+                if not rec(prefix_us + [us[len(us) // 2]], elected + [c]):
+                    return False
+        return True
+
+    rec([], [])
 
 
 def check_tiebreak(ctx, case, max_runs):
